@@ -855,10 +855,18 @@ async def run_block(W: World, block: dict[str, Any], rng: random.Random | None) 
             try:
                 await run_steps(W, block["body"], rng)
             except asyncio.CancelledError:
-                W.event("body-converts-cancel", name)
-                exc = BodyExc(name)
-                W.raised[name] = exc
-                raise exc from None
+                if block["convert_cancel"] == "absorb":
+                    # user code that suppresses the cancellation its scope's group caused (a spawned task failed) and says so the way
+                    # asyncio asks for: Task.uncancel(); the body then ends the way the program says
+                    W.event("body-absorbs-cancel", name)
+                    me = asyncio.current_task()
+                    assert me is not None
+                    me.uncancel()
+                else:
+                    W.event("body-converts-cancel", name)
+                    exc = BodyExc(name)
+                    W.raised[name] = exc
+                    raise exc from None
         else:
             await run_steps(W, block["body"], rng)
         ex = (block.get("exit") or {}).get("kind", "return")
